@@ -34,8 +34,14 @@ def _nodes_in_order(dag):
     from pytato.transform import TopoSortMapper
     m = TopoSortMapper()
     m(dag)
+    def shape_arith(n):
+        # scalar integer arithmetic on size parameters only: a shape component (n + m, 2*n + 1), not an array of the
+        # computation -- the code generator turns these into ISL expressions and never implements them as arrays
+        return (n.ndim == 0 and n.dtype.kind == "i"
+                and all(isinstance(i_, pt.array.SizeParam) for i_ in pt.transform.InputGatherer()(n)))
     return [n for n in m.topological_order
-            if isinstance(n, pt.Array) and not isinstance(n, (pt.array.InputArgumentBase, pt.array.NamedArray))]
+            if isinstance(n, pt.Array) and not isinstance(n, (pt.array.InputArgumentBase, pt.array.NamedArray))
+            and not shape_arith(n)]
 
 
 def tagger(variant: str, seed: int):
@@ -239,7 +245,7 @@ def jobs(tier: str, seed: int):
                 "roll_transpose", "einsum_forms", "data_wrappers", "mixed_pipeline", "reductions", "creation", "stack_concat",
                 "out_is_input", "csr_matmul", "loopy_calls", "loopy_call_scalar_binding", "handmade_index_lambda",
                 "like_dtype_override"}
-        progs = [p for p in progs if p.name in keep]
+        progs = [p for p in progs if p.name in keep or p.name.startswith("g2_")]
     J = []
     for P in progs:
         for v in VARIANTS:
